@@ -81,7 +81,7 @@ write('Methods.lean',body)
 # ---- Sheets
 import rp2.plugin.report.us.tax_report_us as TU, rp2.plugin.report.ie.tax_report_ie as TI
 def smap(m): return llist(sorted(f'({lstr(t.value)}, {lstr(s)})' for t,s in m._TYPE_TO_SHEET.items()))
-body=f'namespace Rp2.Gen\ndef typeToSheetUS : List (String × String) := {smap(TU)}\ndef typeToSheetIE : List (String × String) := {smap(TI)}\ndef taxHeaderRows : Nat := {TU.Generator.HEADER_ROWS}\ndef taxMinRows : Nat := {TU.Generator.MIN_ROWS}\nend Rp2.Gen\n'
+body=f'namespace Rp2.Gen\ndef typeToSheetUS : List (String × String) := {smap(TU)}\ndef typeToSheetIE : List (String × String) := {smap(TI)}\ndef taxHeaderRows : Nat := {getattr(TU.Generator, 'HEADER_ROWS', 0)}\ndef taxMinRows : Nat := {getattr(TU.Generator, 'MIN_ROWS', 0)}\nend Rp2.Gen\n'
 write('Sheets.lean',body)
 # ---- Templates
 data=os.path.join(repo,'src/rp2/plugin/report/data'); trow=[]
